@@ -175,6 +175,10 @@ def rollback (cfg : Cfg) (s : State n) : State n :=
 structure AddOpts where
   payload : Option Bool := none
   commitFails : Bool := false
+  /-- a notifier's `Save` fails: of the payload event (before `graph.add`, only when a payload is given) or of the
+      transaction event (after `graph.add`, before `updateState`) -/
+  savePayloadEventFails : Bool := false
+  saveTxEventFails : Bool := false
 
 /-- `state.Add`. Returns the new state and the call's outcome. -/
 def add (cfg : Cfg) (s : State n) (tx : Tx) (opt : AddOpts) : State n × Res Unit :=
@@ -188,10 +192,12 @@ def add (cfg : Cfg) (s : State n) (tx : Tx) (opt : AddOpts) : State n × Res Uni
     if s.disk.isPresent tx.ref then
       (if opt.commitFails then (rollback cfg s, .err "commit-failed") else (s, .ok ()))
     else if opt.payload == some false then (rollback cfg s, .err "payload-hash-mismatch")
+    else if opt.payload.isSome && opt.savePayloadEventFails then (rollback cfg s, .err "save-failed")
     else match s.disk.graphAdd tx with
       | .err e => (rollback cfg s, .err e)
       | .panic e => (rollback cfg s, .panic e)
       | .ok d =>
+        if opt.saveTxEventFails then (rollback cfg s, .err "save-failed") else
         let s' := updateState s d tx
         if opt.commitFails then (rollback cfg { s' with disk := s.disk }, .err "commit-failed")
         else (s', .ok ())
@@ -211,6 +217,10 @@ def ibltAt (s : State n) (req : Nat) : Iblt n × Nat :=
     let r := s.mem.ibltTree.zeroTo (ibltOps n) req
     (r.1, if r.2 < cur then r.2 else cur)
   else (s.mem.ibltTree.rootData (ibltOps n), cur)
+
+/-- `state.Diagnostics()`: dag_xor (root of the XOR tree), dag_lc_high (atomic copy), transaction_count (tx_num) -/
+def diagnostics (s : State n) : BitVec 256 × Nat × Nat :=
+  (s.mem.xorTree.rootData xorOps, s.mem.lcHigh, s.disk.count)
 
 def listing (s : State n) (a b : Nat) : Res (List Ref) :=
   match s.disk.findBetweenLC a b with
